@@ -174,6 +174,179 @@ theorem rebuilt_shape (f : File) (newdims : List String) (g : List Nat → Cell)
     hasShape (newdims.map f.dimLen) (build (newdims.map f.dimLen) g) = true :=
   build_hasShape _ _
 
+/-- a file that keeps its dimensions: well-formedness of a variable does not depend on the other variables -/
+theorem varWF_congr (f g : File) (hd : g.dims = f.dims) (v : Var) (h : VarWF f v) : VarWF g v := by
+  have hq : ∀ k, g.dim? k = f.dim? k := by intro k; simp only [File.dim?, hd]
+  have hl : g.dimLen = f.dimLen := by funext k; simp only [File.dimLen, hq]
+  refine ⟨fun k hk => by rw [hq]; exact h.1 k hk, ?_⟩
+  simp only [File.shapeOf, hl]; exact h.2
+
+theorem var?_mem {f : File} {k : String} {v : Var} (h : f.var? k = some v) : v ∈ f.vars := by
+  simp only [File.var?] at h
+  exact List.mem_of_find?_eq_some h
+
+/-- **C01 (subsetVariables).** -/
+theorem subset_wf (f f' : File) (keys : List String) (ex : Bool) (h : WF f)
+    (hs : subsetFile f keys ex = .ok f') : WF f' := by
+  unfold subsetFile at hs
+  simp only at hs
+  by_cases hbad : ((if ex = true then f.names.filter (fun k => !keys.contains k) else keys).any
+      (fun k => (f.var? k).isNone)) = true
+  · rw [if_pos hbad] at hs; cases hs
+  · rw [if_neg hbad] at hs
+    simp only [Except.ok.injEq] at hs
+    subst hs
+    intro v hv
+    simp only [List.mem_filterMap] at hv
+    obtain ⟨k, _, hk⟩ := hv
+    exact varWF_congr f _ rfl v (h v (var?_mem hk))
+
+/-- **C01 (renameVariable).** -/
+theorem renameVar_wf (f f' : File) (old new : String) (h : WF f)
+    (hs : renameVarFile f old new = .ok f') : WF f' := by
+  unfold renameVarFile at hs
+  cases hv : f.var? old with
+  | none => simp [hv] at hs
+  | some v0 =>
+    simp only [hv, Except.ok.injEq] at hs
+    subst hs
+    have hv0 := h v0 (var?_mem hv)
+    have hren : VarWF f { v0 with name := new } := hv0
+    intro v hvm
+    apply varWF_congr f _ rfl
+    simp only at hvm
+    split at hvm
+    · exact h v ((List.mem_filter.mp hvm).1)
+    · split at hvm
+      · obtain ⟨w, hw, rfl⟩ := List.mem_map.mp hvm
+        split
+        · exact hren
+        · exact h w ((List.mem_filter.mp hw).1)
+      · rcases List.mem_append.mp hvm with h1 | h2
+        · exact h v ((List.mem_filter.mp h1).1)
+        · simp only [List.mem_cons, List.mem_nil_iff, or_false] at h2
+          rw [h2]; exact hren
+
+/-- **C01 (file arithmetic).** `f1 <op> f2` is well-formed when both operands are: the shape test of `pncbo`
+(repaired) guarantees that same-named variables have the same shape -/
+theorem binop_wf (op : Op) (f1 f2 f' : File) (coords : List String) (h1 : WF f1) (h2 : WF f2)
+    (hs : binopFile op f1 f2 coords = .ok f') : WF f' := by
+  unfold binopFile at hs
+  split at hs
+  · cases hs
+  · rename_i hany
+    simp only [Except.ok.injEq] at hs
+    subst hs
+    intro v hv
+    simp only [List.mem_map] at hv
+    obtain ⟨v0, hv0, rfl⟩ := hv
+    apply varWF_congr f1 _ rfl
+    have hw0 := h1 v0 hv0
+    unfold binopVar
+    split
+    · exact hw0
+    · rename_i hc
+      cases hw : f2.var? v0.name with
+      | none => simpa [hw] using hw0
+      | some w =>
+        simp only [hw]
+        refine ⟨hw0.1, ?_⟩
+        have hsame : f1.shapeOf v0 = f2.shapeOf w := by
+          by_contra hne
+          apply hany
+          rw [List.any_eq_true]
+          refine ⟨v0, hv0, ?_⟩
+          simp only [Bool.and_eq_true, Bool.not_eq_true']
+          refine ⟨by simpa using hc, ?_⟩
+          simp only [hw]
+          simpa using hne
+        have hw2 := (h2 w (var?_mem hw)).2
+        simp only [File.shapeOf] at hsame hw2 ⊢
+        rw [← hsame] at hw2
+        exact zipCells_hasShape _ _ _ _ hw0.2 hw2
+
+/-- **C01 (reorderDimensions).** -/
+theorem reorder_wf (f f' : File) (neworder : List String) (h : WF f)
+    (hs : reorderFile f neworder = .ok f') : WF f' := by
+  unfold reorderFile at hs
+  simp only at hs
+  split at hs
+  · cases hs
+  · simp only [Except.ok.injEq] at hs
+    subst hs
+    intro v hv
+    simp only [List.mem_map] at hv
+    obtain ⟨v0, hv0, rfl⟩ := hv
+    apply varWF_congr f _ rfl
+    have hw0 := h v0 hv0
+    split
+    · exact hw0
+    · refine ⟨?_, ?_⟩
+      · intro k hk
+        have hk' := (List.mem_filter.mp hk).2
+        exact hw0.1 k (by simpa using hk')
+      · exact build_hasShape _ _
+
+theorem find?_filter_keep {α} (p q : α → Bool) (l : List α) (a : α) (h : l.find? p = some a) (hq : q a = true) :
+    (l.filter q).find? p = some a := by
+  induction l with
+  | nil => simp at h
+  | cons x xs ih =>
+    simp only [List.find?_cons] at h
+    by_cases hx : p x = true
+    · simp only [hx] at h
+      cases h
+      simp [List.filter_cons, hq, hx]
+    · simp only [hx] at h
+      by_cases hqx : q x = true
+      · simp [List.filter_cons, hqx, hx, ih h]
+      · simp [List.filter_cons, hqx, ih h]
+
+/-- **C01 (removeSingleton).** the file without the removed length-1 dimensions is well-formed -/
+theorem removeSingleton_wf (f : File) (dk : Option String) (h : WF f) : WF (removeSingletonFile f dk) := by
+  intro v hv
+  simp only [removeSingletonFile, List.mem_map] at hv
+  obtain ⟨v0, hv0, rfl⟩ := hv
+  obtain ⟨hd, _⟩ := h v0 hv0
+  -- the removed names
+  generalize hrem : ((f.dims.filter (fun d => d.len == 1 && (dk.isNone || dk == some d.name))).map (·.name)) = removed
+  have hkeepdim : ∀ k, k ∈ v0.dims → removed.contains k = false →
+      ((removeSingletonFile f dk).dim? k) = f.dim? k := by
+    intro k hk hnr
+    have hsome := hd k hk
+    cases hfk : f.dim? k with
+    | none => rw [hfk] at hsome; simp at hsome
+    | some d =>
+      simp only [File.dim?] at hfk ⊢
+      simp only [removeSingletonFile, hrem]
+      have hname : d.name = k := by
+        have := List.find?_some hfk
+        simpa using this
+      exact find?_filter_keep _ _ _ d hfk (by rw [hname]; simpa using hnr)
+  refine ⟨?_, ?_⟩
+  · intro k hk
+    simp only [hrem, List.mem_map, List.mem_filter, List.mem_range] at hk
+    obtain ⟨i, ⟨hi, hnot⟩, rfl⟩ := hk
+    have hmem : v0.dims.getD i "" ∈ v0.dims := by
+      rw [List.getD_eq_getElem?_getD, List.getElem?_eq_getElem hi]
+      simp
+    rw [hkeepdim _ hmem (by simpa using hnot)]
+    exact hd _ hmem
+  · simp only [File.shapeOf, hrem]
+    have : (List.map (fun i => v0.dims.getD i "") (List.filter (fun i => !removed.contains (v0.dims.getD i "")) (List.range v0.dims.length))).map
+        (removeSingletonFile f dk).dimLen =
+        (List.map (fun i => v0.dims.getD i "") (List.filter (fun i => !removed.contains (v0.dims.getD i "")) (List.range v0.dims.length))).map f.dimLen := by
+      apply List.map_congr_left
+      intro k hk
+      simp only [List.mem_map, List.mem_filter, List.mem_range] at hk
+      obtain ⟨i, ⟨hi, hnot⟩, rfl⟩ := hk
+      have hmem : v0.dims.getD i "" ∈ v0.dims := by
+        rw [List.getD_eq_getElem?_getD, List.getElem?_eq_getElem hi]
+        simp
+      simp only [File.dimLen, hkeepdim _ hmem (by simpa using hnot)]
+    rw [this]
+    exact build_hasShape _ _
+
 /-- non-vacuity: a two-variable file is well-formed and stays so under mask and insertDimension -/
 example : let f : File := ⟨[⟨"t", 2, true⟩, ⟨"x", 2, false⟩],
       [⟨"A", ["t", "x"], .node [.node [.leaf (some 1), .leaf none], .node [.leaf (some 3), .leaf (some 4)]], [], true, false⟩,
